@@ -30,6 +30,7 @@ if os.path.realpath(REPO) != "/repo":
 DRIVER = os.path.join(LEAN, ".lake", "build", "bin", "tdmodel")
 ALLOWED_AXIOMS = {"propext", "Classical.choice", "Quot.sound"}
 MAX_DEATHS = 4
+STALL_S = 20
 
 sys.path.insert(0, VERIF)
 import gen  # noqa: E402
@@ -205,17 +206,28 @@ def run_harness(binary, cases, tag):
         with open(path, "w") as f:
             for c in cases[start:]:
                 f.write("\n".join(c) + "\n")
-        nlines = sum(len(c) for c in cases[start:])
-        try:
-            r = subprocess.run([binary, path], capture_output=True, text=True, timeout=max(45, nlines / 1000))
-            out, died = r.stdout, (r.returncode != 0)
-            kind = "abort"
-        except subprocess.TimeoutExpired as e:
-            out = e.stdout.decode() if isinstance(e.stdout, bytes) else (e.stdout or "")
-            died, kind = True, "hang"
+        # watchdog on *progress*: the harness flushes one line per operation; if its output stops growing for STALL_S seconds
+        # the operation being executed hangs (a normal operation takes micro- to milliseconds, also on a loaded machine)
+        outpath = path + ".out"
+        with open(outpath, "w") as outf:
+            proc = subprocess.Popen([binary, path], stdout=outf, stderr=subprocess.DEVNULL)
+            last_size, last_change, kind = -1, time.time(), "abort"
+            while True:
+                rc = proc.poll()
+                if rc is not None:
+                    break
+                size = os.path.getsize(outpath)
+                if size != last_size:
+                    last_size, last_change = size, time.time()
+                elif time.time() - last_change > STALL_S:
+                    proc.kill(); proc.wait(); kind = "hang"
+                    break
+                time.sleep(0.05)
+        out = open(outpath).read()
+        os.unlink(outpath)
+        died = (proc.returncode != 0)
         obs = out.split("\n")
-        if obs and obs[-1] == "":
-            obs.pop()
+        obs.pop()          # "" after the final newline, or a partial line cut off when the process died
         k = 0
         idx = start
         while idx < len(cases) and k + len(cases[idx]) <= len(obs):
